@@ -390,7 +390,10 @@ fn case_wdec(out: &mut Out, chunks: Vec<Vec<u8>>, expect: Option<&[Frame]>, tag:
     if expect.is_none() {
         if crate::childrun::hangs() >= crate::childrun::MAX_HANGS { out.case(&line, "NOT-RUN-AFTER-HANGS", Ok(())); return; }
         match crate::childrun::guarded("wdecg", chunks_text(&chunks).as_bytes()) {
-            crate::childrun::Outcome::Value(_) | crate::childrun::Outcome::Panic(_) => {}
+            crate::childrun::Outcome::Value(_) => {
+                if let Some(w) = crate::childrun::alloc_excess("wdec", whole.len(), true) { out.case(&line, "ALLOC", Err(w)); return; }
+            }
+            crate::childrun::Outcome::Panic(_) => {}
             crate::childrun::Outcome::Abort(st) => { out.case(&line, "ABORT", Err(format!("C06: decoding this stream aborted the process ({st}): an allocation unrelated to the size of the input"))); return; }
             crate::childrun::Outcome::Hang => { out.case(&line, "HANG", Err("C06: decoding this stream never returned".into())); return; }
         }
@@ -475,7 +478,7 @@ fn case_bdec(out: &mut Out, b: Vec<u8>, tag: &str) {
     if crate::childrun::hangs() >= crate::childrun::MAX_HANGS { out.case(&line, "NOT-RUN-AFTER-HANGS", Ok(())); return; }
     let res = crate::childrun::guarded("bdec", &b);
     let (imp, mon) = match res {
-        crate::childrun::Outcome::Value(v) => (v, Ok(())),
+        crate::childrun::Outcome::Value(v) => match crate::childrun::alloc_excess("bdec", b.len(), true) { Some(w) => (v, Err(w)), None => (v, Ok(())) },
         crate::childrun::Outcome::Panic(p) => ("PANIC".into(), Err(format!("decode_message_batch panicked: {p}"))),
         crate::childrun::Outcome::Abort(a) => ("ABORT".into(), Err(format!("decode_message_batch aborted the process: {a}"))),
         crate::childrun::Outcome::Hang => ("HANG".into(), Err("decode_message_batch did not return".into())),
@@ -619,5 +622,6 @@ pub fn run(cfg: &Cfg) {
         }
         case_bdec(&mut out, b, tag);
     }
+    for (k, inp, big) in crate::util::ALLOC_NOTES.lock().unwrap().iter() { out.stat(&format!("maxalloc_{k}_{big}_for_input_{inp}")); }
     out.finish();
 }
